@@ -6,6 +6,7 @@ from tools.harness import c05
 tier = sys.argv[1] if len(sys.argv) > 1 else 'quick'
 seed = int(sys.argv[2]) if len(sys.argv) > 2 else 0
 ctx = F.Ctx('C05', tier, seed, F.Driver('/verif/ocaml/build/c05/drv'))
+ctx.keep_all = True
 cases = c05.gen(ctx)
 c05.evaluate(ctx, cases)
 n = 0
